@@ -443,6 +443,11 @@ struct TemplateCore {
                                     }
                                 } while (++offset < end_offset);
 
+                                if (is_child) {
+                                    // The '}' was text inside 'true' / 'false': the tag is still open, nothing to check yet.
+                                    break;
+                                }
+
                                 // Set StartID
                                 if ((tag.TrueOffset != SizeT16{0}) || (tag.FalseOffset != SizeT16{0})) {
                                     const TagBit *s_tag     = tag.SubTags.First();
